@@ -76,7 +76,7 @@ def run_level(ctx, binp, q):
             seen.add(k)
             cases.append(r)
     if q:
-        keep = [["silent"], ["partial"], ["idle", "inflight", "silent"], ["idle", "inflight", "partial", "silent"]]
+        keep = [["silent"], ["partial"], ["pipelined"], ["idle", "inflight", "silent"], ["idle", "inflight", "partial", "silent"], ["inflight", "pipelined"]]
         cases = [r for r in cases if sorted(r["clients"]) in keep]
     if not cases:
         raise vlib.Infra("LifecycleRun generated no case")
@@ -90,7 +90,7 @@ def run_level(ctx, binp, q):
         if not r["ok"]:
             w = r["why"]
             k = ("open-connections-after-run" if "open connections" in w or "still open" in w else "run-not-returned" if "had not returned" in w
-                 else "inflight-not-completed" if "in flight" in w else "late-client-served" if "after Run returned was answered" in w else "other")
+                 else "inflight-not-completed" if "in flight" in w else "answer-under-way-cut" if "answer under way" in w else "late-client-served" if "after Run returned was answered" in w else "other")
             ctx.violation("C11:run-level:%s:%s" % (k, r["stacking"]), r)
         else:
             ctx.traces_ok += 1
